@@ -2,7 +2,7 @@ SPEC = {
     "id": "C12",
     "props_module": "NDB.Props.C12",
     "corr_modules": ["NDB.Corr.C12"],
-    "theorems": ["C12_merge_stmt_idempotent", "C12_merge_on_items", "C12_merge_rel_refuted", "C12_merge_rel_direction", "C12_chain_set_remove", "C12_merge_idempotent", "C12_merge_nan_refuted", "C12_set_remove_algebra", "C12_create_frame", "C12_delete"],
+    "theorems": ["C12_merge_stmt_idempotent", "C12_merge_on_items", "C12_merge_rel_refuted", "C12_merge_rel_idempotent", "C12_merge_rel_direction", "C12_chain_set_remove", "C12_merge_idempotent", "C12_merge_nan_refuted", "C12_set_remove_algebra", "C12_create_frame", "C12_delete"],
     "allowed_axioms": [],
     "harness_pkg": "hx_update",
     "harness_bin": "c12",
@@ -26,7 +26,7 @@ SPEC = {
     ],
     "manifest": {
         "category": "proof",
-        "text": "Reference semantics of CREATE, MERGE (node patterns; relationship patterns between bound nodes), SET (node and relationship property, = map, += map, labels), REMOVE, DELETE / DETACH DELETE and chains of SET / REMOVE clauses in one statement, on evaluated operands, with the engine's change counts; relationships are identified by (src,type,dst) with a multiplicity and one shared property map, as the storage does. Proved for all graphs and operands: a repeated MERGE statement of any number of rows creates nothing, reports 0 and leaves the graph unchanged (given no ON CREATE / ON MATCH items and no NaN in the pattern; the NaN case is refuted by a witness), the SET/REMOVE algebra (SET then REMOVE = REMOVE, SET null = REMOVE, SET = map keeps exactly the map's non-null keys, += {} is the identity, read-back laws), CREATE adds exactly the counted nodes and changes nothing else, DELETE fails iff a target has a relationship, DETACH DELETE never fails, no relationship of a deleted node remains. Implementation = reference (graph dump and count after every statement of generated sequences) is the sampled part. MERGE with ON CREATE / ON MATCH items on keys disjoint from the pattern keys is proved to create nothing when repeated (any number of rows). Relationship MERGE is refuted as non-idempotent when rows of one statement merge different maps on one key (K-C12-relidentity, relationships have no identity); the harness repeats every generated MERGE and requires count 0 and unchanged sizes outside that class. One chain law is proved (SET n.k = v REMOVE n.k = REMOVE n.k); the other laws are proved per clause.",
+        "text": "Reference semantics of CREATE, MERGE (node patterns; relationship patterns between bound nodes), SET (node and relationship property, = map, += map, labels), REMOVE, DELETE / DETACH DELETE and chains of SET / REMOVE clauses in one statement, on evaluated operands, with the engine's change counts; relationships are identified by (src,type,dst) with a multiplicity and one shared property map, as the storage does. Proved for all graphs and operands: a repeated MERGE statement of any number of rows creates nothing, reports 0 and leaves the graph unchanged (given no ON CREATE / ON MATCH items and no NaN in the pattern; the NaN case is refuted by a witness), the SET/REMOVE algebra (SET then REMOVE = REMOVE, SET null = REMOVE, SET = map keeps exactly the map's non-null keys, += {} is the identity, read-back laws), CREATE adds exactly the counted nodes and changes nothing else, DELETE fails iff a target has a relationship, DETACH DELETE never fails, no relationship of a deleted node remains. Implementation = reference (graph dump and count after every statement of generated sequences) is the sampled part. MERGE with ON CREATE / ON MATCH items on keys disjoint from the pattern keys is proved to create nothing when repeated (any number of rows). Relationship MERGE is proved idempotent when all rows of the statement carry the same pattern (any direction, any stored orientation) and refuted as non-idempotent when rows merge different maps on one key (K-C12-relidentity, relationships have no identity; rows with different maps that agree on shared keys are covered by neither); the harness repeats every generated MERGE and requires count 0 and unchanged sizes outside that class. One chain law is proved (SET n.k = v REMOVE n.k = REMOVE n.k); the other laws are proved per clause.",
         "design_ref": "DESIGN.md §5 C11/C12",
         "level_note": "Trusted: Coq kernel; the reference is tied to the code by sampled correspondence (not by proof); operands taken from the engine's own MATCH results.",
         "technique": "Rocq proof (list induction over rows, map algebra) + vm_compute replay of generated statement sequences + independent Rust reference graph",
